@@ -493,7 +493,7 @@ func (t *genTable[Obj]) Insert(txn WriteTxn, obj Obj) (oldObj Obj, hadOld bool, 
 
 func (t *genTable[Obj]) InsertWatch(txn WriteTxn, obj Obj) (oldObj Obj, hadOld bool, watch <-chan struct{}, err error) {
 	var old object
-	old, hadOld, watch, err = txn.unwrap().insert(t, Revision(0), obj)
+	old, hadOld, watch, err = txn.unwrap().insert(t, noGuard, obj)
 	if hadOld {
 		oldObj = old.data.(Obj)
 	}
@@ -506,7 +506,7 @@ func (t *genTable[Obj]) Modify(txn WriteTxn, obj Obj, merge func(old, new Obj) O
 		return new
 	}
 	var old object
-	old, hadOld, _, err = txn.unwrap().modify(t, Revision(0), obj, mergeObjects)
+	old, hadOld, _, err = txn.unwrap().modify(t, noGuard, obj, mergeObjects)
 	if hadOld {
 		oldObj = old.data.(Obj)
 	}
@@ -515,7 +515,7 @@ func (t *genTable[Obj]) Modify(txn WriteTxn, obj Obj, merge func(old, new Obj) O
 
 func (t *genTable[Obj]) CompareAndSwap(txn WriteTxn, rev Revision, obj Obj) (oldObj Obj, hadOld bool, err error) {
 	var old object
-	old, hadOld, _, err = txn.unwrap().insert(t, rev, obj)
+	old, hadOld, _, err = txn.unwrap().insert(t, guardWith(rev), obj)
 	if hadOld {
 		oldObj = old.data.(Obj)
 	}
@@ -524,7 +524,7 @@ func (t *genTable[Obj]) CompareAndSwap(txn WriteTxn, rev Revision, obj Obj) (old
 
 func (t *genTable[Obj]) Delete(txn WriteTxn, obj Obj) (oldObj Obj, hadOld bool, err error) {
 	var old object
-	old, hadOld, err = txn.unwrap().delete(t, Revision(0), obj)
+	old, hadOld, err = txn.unwrap().delete(t, noGuard, obj)
 	if hadOld {
 		oldObj = old.data.(Obj)
 	}
@@ -533,7 +533,7 @@ func (t *genTable[Obj]) Delete(txn WriteTxn, obj Obj) (oldObj Obj, hadOld bool, 
 
 func (t *genTable[Obj]) CompareAndDelete(txn WriteTxn, rev Revision, obj Obj) (oldObj Obj, hadOld bool, err error) {
 	var old object
-	old, hadOld, err = txn.unwrap().delete(t, rev, obj)
+	old, hadOld, err = txn.unwrap().delete(t, guardWith(rev), obj)
 	if hadOld {
 		oldObj = old.data.(Obj)
 	}
@@ -543,7 +543,7 @@ func (t *genTable[Obj]) CompareAndDelete(txn WriteTxn, rev Revision, obj Obj) (o
 func (t *genTable[Obj]) DeleteAll(txn WriteTxn) error {
 	itxn := txn.unwrap()
 	for obj := range t.All(txn) {
-		_, _, err := itxn.delete(t, Revision(0), obj)
+		_, _, err := itxn.delete(t, noGuard, obj)
 		if err != nil {
 			return err
 		}
